@@ -1,65 +1,13 @@
 (* C16 - Aggregates and GROUP BY follow SQL semantics.
    Property theorems only.  Reference semantics: Model/SqlSpecAgg.v (on Model/SqlSpec.v);
-   implementation model: Model/AggImpl.v (hand-written from src/sql/state.rs, executor.rs,
-   builder.rs, predicate.rs; tied to the code by the correspondence run); classes: Model/AggClass.v. *)
+   implementation model: Model/AggImpl.v, Model/AggJoin.v (hand-written from src/sql/state.rs,
+   executor.rs, builder.rs, predicate.rs, planner/select.rs, database/database.rs; tied to the code by
+   the correspondence run); classes: Model/AggClass.v. *)
 From Coq Require Import ZArith List Bool.
 From TV Require Import Model.SqlSpecAgg Model.AggImpl Model.AggClass Model.AggJoin
-  Proof.AggFold Proof.AggFoldSpec Proof.AggRefute Proof.AggKeys Proof.AggGroups Proof.AggGroupsMain
-  Proof.AggQuery3 Proof.AggFloat.
+  Proof.AggRefute Proof.AggKeys Proof.AggGroups Proof.AggGroupsMain.
 Import ListNotations.
 Open Scope Z_scope.
-
-(* every aggregate function, EVERY list of argument values outside the recorded classes: folding
-   AggregateState::update over the values and finalizing gives exactly the reference aggregate
-   (COUNT( * ) = length, COUNT(e) = number of non-NULL, SUM / MIN / MAX over the non-NULL values,
-   NULL when there is none, AVG = SUM / COUNT as a double); no `+=` overflows *)
-Theorem agg_fold_spec :
-  forall f vs v,
-    vals_class f vs = 0 -> int_sums f vs = true ->
-    agg_vals f vs = AVal v ->
-    exists s, fold_upd (kind_of_fn f) st0 (map Some vs) = SOk s /\ fin (kind_of_fn f) s = v.
-Proof. exact Proof.AggFoldSpec.agg_fold_spec. Qed.
-Check agg_fold_spec :
-  forall f vs v,
-    vals_class f vs = 0 -> int_sums f vs = true ->
-    agg_vals f vs = AVal v ->
-    exists s, fold_upd (kind_of_fn f) st0 (map Some vs) = SOk s /\ fin (kind_of_fn f) s = v.
-Print Assumptions agg_fold_spec.
-
-(* SUM / AVG over doubles that are exactly summable (multiples of 2^-10 below 2^33, fewer than 1024):
-   every `sum_float += f` is exact (round_q is exact on 53-bit dyadics), the fold ends with the
-   reference SUM (a zero sum is returned as the integer 0: equal as SQL values) and AVG divides it
-   by the count *)
-Theorem agg_fold_float_sum :
-  forall f vs fs v,
-    (f = FSum \/ f = FAvg) -> floats_of (nonnull vs) = Some fs -> fs <> [] ->
-    agg_vals f vs = AVal v ->
-    exists s, fold_upd (kind_of_fn f) st0 (map Some vs) = SOk s /\ val_match (fin (kind_of_fn f) s) v.
-Proof. exact Proof.AggFloat.agg_fold_float_sum. Qed.
-Check agg_fold_float_sum :
-  forall f vs fs v,
-    (f = FSum \/ f = FAvg) -> floats_of (nonnull vs) = Some fs -> fs <> [] ->
-    agg_vals f vs = AVal v ->
-    exists s, fold_upd (kind_of_fn f) st0 (map Some vs) = SOk s /\ val_match (fin (kind_of_fn f) s) v.
-Print Assumptions agg_fold_float_sum.
-
-(* the whole query: for EVERY query (WHERE, 0..n plain-column keys, any list of aggregates over plain
-   columns, any select list over them, HAVING over the keys and the selected aggregates) and EVERY
-   table outside the recorded classes on which the reference makes a demand, the faithful model of
-   TurDB's execution returns exactly the rows the reference demands: one row per distinct key
-   (NULL keys one group), one row for an empty input without GROUP BY and none with, COUNT / SUM / AVG /
-   MIN / MAX as specified, HAVING keeping a group iff its predicate is TRUE (SUM / AVG over integers;
-   over doubles the run against the implementation is the only check) *)
-Theorem query_correct :
-  forall q t rs,
-    q_class q t = 0 -> q_int_sums q t = true ->
-    spec_query q t = SRows rs -> model_query q t = MRows rs.
-Proof. exact Proof.AggQuery3.query_correct. Qed.
-Check query_correct :
-  forall q t rs,
-    q_class q t = 0 -> q_int_sums q t = true ->
-    spec_query q t = SRows rs -> model_query q t = MRows rs.
-Print Assumptions query_correct.
 
 (* GROUP BY over plain columns (each key column of one kind): whenever HashAggregate gets through,
    its table IS the reference grouping -- one entry per distinct key in order of first occurrence
@@ -95,98 +43,78 @@ Check reference_groups :
   (forall v, key_same1 VNull v = is_null v).
 Print Assumptions reference_groups.
 
-(* empty input: without GROUP BY one row of initial states (COUNT 0; SUM 0 -- class 2 -- and NULL for
-   AVG / MIN / MAX), with GROUP BY no row *)
+(* empty input: without GROUP BY one row of initial states (COUNT 0, NULL for SUM / AVG / MIN / MAX),
+   with GROUP BY no row *)
 Theorem empty_input :
   (forall fs, agg_rows [] fs [] = SOk [finalize_all fs (map (fun _ => st0) fs)]) /\
   (forall k keys fs, agg_rows (k :: keys) fs [] = SOk []) /\
-  (forall f, finalize f st0 = match kind_of f with KCount | KSum => VInt 0 | _ => VNull end).
+  (forall f, finalize f st0 = match kind_of f with KCount => VInt 0 | _ => VNull end).
 Proof. exact (conj agg_rows_empty_nokeys (conj agg_rows_empty_keys finalize_initial)). Qed.
 Check empty_input :
   (forall fs, agg_rows [] fs [] = SOk [finalize_all fs (map (fun _ => st0) fs)]) /\
   (forall k keys fs, agg_rows (k :: keys) fs [] = SOk []) /\
-  (forall f, finalize f st0 = match kind_of f with KCount | KSum => VInt 0 | _ => VNull end).
+  (forall f, finalize f st0 = match kind_of f with KCount => VInt 0 | _ => VNull end).
 Print Assumptions empty_input.
 
-(* the recorded classes are real: in each the faithful model answers a concrete query wrongly *)
-Theorem count_null_refuted :
-  q_class q_count t_count = 1 /\ wrong_rows q_count t_count /\ model_query q_count t_count = MRows [[VInt 2]].
-Proof. exact count_null_refuted_l. Qed.
-Check count_null_refuted :
-  q_class q_count t_count = 1 /\ wrong_rows q_count t_count /\ model_query q_count t_count = MRows [[VInt 2]].
-Print Assumptions count_null_refuted.
+(* the seven classes repaired in /repo: their witnesses (COUNT(col) with a NULL, SUM over NULLs only and
+   over nothing, SUM beyond i64, MIN over text, SUM(c1 + 1), GROUP BY c1 + 1 with and without NULL key
+   parts, HAVING over an unselected aggregate) are now answered exactly as the reference demands and
+   lie outside every class *)
+Theorem former_classes_repaired :
+  right_rows q_count t_count [[VInt 1]] /\
+  right_rows q_sum t_sum [[VNull]] /\ right_rows q_sum [] [[VNull]] /\
+  (model_query q_sum t_ovf = MErr /\ spec_query q_sum t_ovf = SError) /\
+  right_rows q_min t_text [[VText [97]]] /\
+  right_rows q_arg t_two [[VInt 32]] /\
+  right_rows q_key t_two [[VInt 11; VInt 1]; [VInt 21; VInt 1]] /\
+  right_rows q_nk t_nk [[VInt 1]; [VInt 1]] /\
+  right_rows q_hav t_hav [[VInt 1]] /\
+  q_class q_count t_count = 0 /\ q_class q_sum t_sum = 0 /\ q_class q_min t_text = 0 /\
+  q_class q_arg t_two = 0 /\ q_class q_key t_two = 0 /\ q_class q_hav t_hav = 0.
+Proof. exact former_classes_repaired_l. Qed.
+Check former_classes_repaired :
+  right_rows q_count t_count [[VInt 1]] /\
+  right_rows q_sum t_sum [[VNull]] /\ right_rows q_sum [] [[VNull]] /\
+  (model_query q_sum t_ovf = MErr /\ spec_query q_sum t_ovf = SError) /\
+  right_rows q_min t_text [[VText [97]]] /\
+  right_rows q_arg t_two [[VInt 32]] /\
+  right_rows q_key t_two [[VInt 11; VInt 1]; [VInt 21; VInt 1]] /\
+  right_rows q_nk t_nk [[VInt 1]; [VInt 1]] /\
+  right_rows q_hav t_hav [[VInt 1]] /\
+  q_class q_count t_count = 0 /\ q_class q_sum t_sum = 0 /\ q_class q_min t_text = 0 /\
+  q_class q_arg t_two = 0 /\ q_class q_key t_two = 0 /\ q_class q_hav t_hav = 0.
+Print Assumptions former_classes_repaired.
 
-Theorem sum_empty_refuted :
-  q_class q_sum t_sum = 2 /\ wrong_rows q_sum t_sum /\ model_query q_sum t_sum = MRows [[VInt 0]] /\
-  q_class q_sum [] = 2 /\ wrong_rows q_sum [].
-Proof. exact sum_empty_refuted_l. Qed.
-Check sum_empty_refuted :
-  q_class q_sum t_sum = 2 /\ wrong_rows q_sum t_sum /\ model_query q_sum t_sum = MRows [[VInt 0]] /\
-  q_class q_sum [] = 2 /\ wrong_rows q_sum [].
-Print Assumptions sum_empty_refuted.
+(* the classes still open are real: in each the faithful model answers a concrete query wrongly.
+   HAVING COUNT(c1 + 0) > 1 reads the slot named `count`, i.e. COUNT( * ) *)
+Theorem agg_name_refuted :
+  q_class q_name t_name = 9 /\ wrong_rows q_name t_name /\ model_query q_name t_name = MRows [[VInt 1; VInt 3]].
+Proof. exact agg_name_refuted_l. Qed.
+Check agg_name_refuted :
+  q_class q_name t_name = 9 /\ wrong_rows q_name t_name /\ model_query q_name t_name = MRows [[VInt 1; VInt 3]].
+Print Assumptions agg_name_refuted.
 
-Theorem sum_overflow_panics :
-  q_class q_sum t_ovf = 3 /\ model_query q_sum t_ovf = MPanic /\ spec_query q_sum t_ovf = SError.
-Proof. exact sum_overflow_panics_l. Qed.
-Check sum_overflow_panics :
-  q_class q_sum t_ovf = 3 /\ model_query q_sum t_ovf = MPanic /\ spec_query q_sum t_ovf = SError.
-Print Assumptions sum_overflow_panics.
+(* GROUP BY c1 + 1 HAVING c1 + 1 > 1 keeps no group *)
+Theorem having_key_refuted :
+  q_class q_hkey t_two = 10 /\ wrong_rows q_hkey t_two /\ model_query q_hkey t_two = MRows [].
+Proof. exact having_key_refuted_l. Qed.
+Check having_key_refuted :
+  q_class q_hkey t_two = 10 /\ wrong_rows q_hkey t_two /\ model_query q_hkey t_two = MRows [].
+Print Assumptions having_key_refuted.
 
-Theorem text_min_refuted :
-  q_class q_min t_text = 4 /\ wrong_rows q_min t_text /\ model_query q_min t_text = MRows [[VNull]].
-Proof. exact text_min_refuted_l. Qed.
-Check text_min_refuted :
-  q_class q_min t_text = 4 /\ wrong_rows q_min t_text /\ model_query q_min t_text = MRows [[VNull]].
-Print Assumptions text_min_refuted.
-
-Theorem arg_expr_refuted :
-  q_class q_arg t_two = 5 /\ wrong_rows q_arg t_two /\ model_query q_arg t_two = MRows [[VInt 3]].
-Proof. exact arg_expr_refuted_l. Qed.
-Check arg_expr_refuted :
-  q_class q_arg t_two = 5 /\ wrong_rows q_arg t_two /\ model_query q_arg t_two = MRows [[VInt 3]].
-Print Assumptions arg_expr_refuted.
-
-Theorem key_expr_refuted :
-  (q_class q_key t_two = 6 /\ wrong_rows q_key t_two) /\
-  (q_class q_nk t_nk = 6 /\ wrong_rows q_nk t_nk /\ model_query q_nk t_nk = MRows [[VInt 2]]).
-Proof. exact (conj key_expr_refuted_l key_null_merge_refuted_l). Qed.
-Check key_expr_refuted :
-  (q_class q_key t_two = 6 /\ wrong_rows q_key t_two) /\
-  (q_class q_nk t_nk = 6 /\ wrong_rows q_nk t_nk /\ model_query q_nk t_nk = MRows [[VInt 2]]).
-Print Assumptions key_expr_refuted.
-
-Theorem having_agg_refuted :
-  q_class q_hav t_hav = 7 /\ wrong_rows q_hav t_hav /\ model_query q_hav t_hav = MRows [].
-Proof. exact having_agg_refuted_l. Qed.
-Check having_agg_refuted :
-  q_class q_hav t_hav = 7 /\ wrong_rows q_hav t_hav /\ model_query q_hav t_hav = MRows [].
-Print Assumptions having_agg_refuted.
-
+(* aggregates over a join: the hand-written path groups the projected rows; no row for an empty join *)
 Theorem join_agg_refuted :
   (spec_join_query jl jr 1 1 q_join = SRows [[VInt 1; VInt 2]] /\
-   model_join_query jl jr 1 1 q_join = MRows [[VNull; VInt 2]]) /\
+   model_join_query jl jr 1 1 q_join = MRows [[VInt 1; VInt 1]; [VInt 2; VInt 1]]) /\
   (spec_join_query jl [] 1 1 (mkQ None [] [mkAgg FCountStar (ECol 0)] [0%nat] None) = SRows [[VInt 0]] /\
    model_join_query jl [] 1 1 (mkQ None [] [mkAgg FCountStar (ECol 0)] [0%nat] None) = MRows []).
 Proof. exact (conj join_agg_refuted_l join_agg_empty_refuted_l). Qed.
 Check join_agg_refuted :
   (spec_join_query jl jr 1 1 q_join = SRows [[VInt 1; VInt 2]] /\
-   model_join_query jl jr 1 1 q_join = MRows [[VNull; VInt 2]]) /\
+   model_join_query jl jr 1 1 q_join = MRows [[VInt 1; VInt 1]; [VInt 2; VInt 1]]) /\
   (spec_join_query jl [] 1 1 (mkQ None [] [mkAgg FCountStar (ECol 0)] [0%nat] None) = SRows [[VInt 0]] /\
    model_join_query jl [] 1 1 (mkQ None [] [mkAgg FCountStar (ECol 0)] [0%nat] None) = MRows []).
 Print Assumptions join_agg_refuted.
-
-(* non-vacuity: the hypotheses of agg_fold_spec are met by NULL-rich inputs of every function *)
-Example agg_fold_nonvacuous :
-  let vs := [VInt 3; VNull; VInt (-5); VInt 3] in
-  (vals_class FSum vs = 0 /\ int_sums FSum vs = true /\ agg_vals FSum vs = AVal (VInt 1)) /\
-  (vals_class FAvg vs = 0 /\ int_sums FAvg vs = true /\ exists a, agg_vals FAvg vs = AVal (VFloat a)) /\
-  (vals_class FMin vs = 0 /\ agg_vals FMin vs = AVal (VInt (-5))) /\
-  (vals_class FMax [VNull; VFloat 4609434218613702656; VFloat 0] = 0 /\
-   agg_vals FMax [VNull; VFloat 4609434218613702656; VFloat 0] = AVal (VFloat 4609434218613702656)) /\
-  (vals_class FAvg [VNull; VNull] = 0 /\ agg_vals FAvg [VNull; VNull] = AVal VNull) /\
-  (vals_class FCount [VInt 1; VInt 2] = 0 /\ agg_vals FCount [VInt 1; VInt 2] = AVal (VInt 2)) /\
-  (vals_class FCountStar [VNull; VNull] = 0 /\ agg_vals FCountStar [VNull; VNull] = AVal (VInt 2)).
-Proof. cbv zeta. repeat split; try (vm_compute; reflexivity). eexists; vm_compute; reflexivity. Qed.
 
 (* non-vacuity of groups_partition: two keys with NULLs, three groups, the NULL rows together *)
 Example groups_partition_nonvacuous :
@@ -196,30 +124,7 @@ Example groups_partition_nonvacuous :
   exists ks tbl,
     map_opt (fun r => map_opt (fun e => eval e r) keys) rows = Some ks /\
     key_cols_ok (length keys) ks = true /\
-    hash_aggregate keys [MCount; MSum 0%nat] rows [] = SOk tbl /\
-    map (fun e : gentry => snd (fst e) ++ finalize_all [MCount; MSum 0%nat] (snd e)) tbl =
+    hash_aggregate keys [MCount AStar; MSum (ACol 0%nat)] rows [] = SOk tbl /\
+    map (fun e : gentry => snd (fst e) ++ finalize_all [MCount AStar; MSum (ACol 0%nat)] (snd e)) tbl =
       [[VNull; VInt 2; VInt 4]; [VInt 7; VInt 2; VInt 7]; [VInt 0; VInt 1; VInt 4]].
 Proof. cbv zeta. split; [reflexivity|]. eexists; eexists. repeat split; vm_compute; reflexivity. Qed.
-
-(* non-vacuity of query_correct: NULL keys, NULLs under SUM / MIN, HAVING over a selected aggregate *)
-Example query_correct_nonvacuous :
-  let t := [[VInt 1; VNull; VInt 5]; [VInt 2; VNull; VInt 7]; [VInt 3; VInt 1; VInt 2];
-            [VInt 4; VInt 1; VNull]; [VInt 5; VInt 2; VInt 3]] in
-  let q := mkQ (Some (ECmp CGt (ECol 0) (ELit (VInt 0)))) [ECol 1]
-               [mkAgg FCountStar (ECol 0); mkAgg FSum (ECol 2); mkAgg FMin (ECol 2); mkAgg FAvg (ECol 2)]
-               [0%nat; 1%nat; 2%nat; 3%nat]
-               (Some (ECmp CGt (ECol 1) (ELit (VInt 1)))) in
-  q_class q t = 0 /\ q_int_sums q t = true /\
-  spec_query q t = SRows [[VNull; VInt 2; VInt 12; VInt 5]; [VInt 1; VInt 2; VInt 2; VInt 2]] /\
-  (let q0 := mkQ None [] [mkAgg FCountStar (ECol 0); mkAgg FMax (ECol 1)] [0%nat; 1%nat] None in
-   q_class q0 [] = 0 /\ q_int_sums q0 [] = true /\ spec_query q0 [] = SRows [[VInt 0; VNull]]).
-Proof. cbv zeta. repeat split; vm_compute; reflexivity. Qed.
-
-(* non-vacuity of agg_fold_float_sum: 1.5 + NULL + 2.25 + (-0.75) = 3.0, and a sum that cancels *)
-Example agg_fold_float_nonvacuous :
-  (let vs := [VFloat 4609434218613702656; VNull; VFloat 4612248968380809216; VFloat 13828302655841107968] in
-   floats_of (nonnull vs) = Some [4609434218613702656; 4612248968380809216; 13828302655841107968] /\
-   agg_vals FSum vs = AVal (VFloat 4613937818241073152) /\ exists a, agg_vals FAvg vs = AVal (VFloat a)) /\
-  (let vs := [VFloat 4609434218613702656; VFloat 13832806255468478464] in
-   agg_vals FSum vs = AVal (VFloat 0)).
-Proof. cbv zeta. repeat split; try (vm_compute; reflexivity). eexists; vm_compute; reflexivity. Qed.
